@@ -369,6 +369,9 @@ def cases():
     # eleven levels: a level number with two digits
     dm = families.deep_mesh(11, 2)
     out.append({'label': dm.name, 'mesh': dm, 'fields': fsets[1], 'layout': families.scatter_layouts(dm, rnd, 1), 'geom': 0})
+    # ten levels refining towards the upper corner: cell indices with four digits, FAB header lines of more than 100 characters
+    dm = families.deep_mesh(10, 3, corner='upper')
+    out.append({'label': dm.name, 'mesh': dm, 'fields': fsets[1], 'layout': families.scatter_layouts(dm, rnd, 1), 'geom': 0})
     nrand = 6 if tier == 'quick' else 300
     for r in range(nrand):
         nd = rnd.choice([2, 3])
